@@ -267,6 +267,7 @@ func envelopeOps(dek *tinkpb.KeyTemplate, kek tink.AEAD) []*op {
 	env := aead.NewKMSEnvelopeAEAD2(dek, kek)
 	return []*op{
 		{name: "Encrypt", rand: true, call: func(in, _ []byte) ([]byte, error) { return env.Encrypt(in, adFor(in)) },
+			ad: env.Encrypt, invAD: env.Decrypt,
 			invName: "Decrypt", inv: func(out, msg []byte) ([]byte, error) { return env.Decrypt(out, adFor(msg)) }},
 		{name: "Decrypt", from: "Encrypt", call: func(in, msg []byte) ([]byte, error) { return env.Decrypt(in, adFor(msg)) }},
 		{name: "aead.NewKMSEnvelopeAEAD2+Decrypt", from: "Encrypt", call: func(in, msg []byte) ([]byte, error) {
